@@ -117,6 +117,12 @@ CHECKS = {
    design_ref="DESIGN.md section 6 C07",
    note=COMMON_NOTE + "Hand-modelled: Model/Join.v, Model/Priv.v. That the joiner's group state equals the members' is decided on the implementation (no separate theorem beyond the key positions); PSK joiners are C18.",
    technique="Coq proof (key package store, joiner key positions) + joiner-vs-member differential"),
+ "C01": dict(
+   category="proof",
+   text="Coq theorems (Props/C01.v): TreeKEM secret agreement - for every filter list, whoever enters the committer's chain of path secrets at a non-filtered position with that position's secret reproduces the rest of the chain and ends in the committer's commit secret (model of encap / decap / PathSecretGenerator over an abstract derivation function), so all receivers at every distance agree with the committer and with each other; secrets sit exactly at non-filtered positions; proposal agreement (what the committer keeps is applied unchanged by every receiver); the epoch advances by exactly one accepted commit. PARTIAL: that every receiver's common-ancestor position is non-filtered and that it holds a key in the copath resolution is not proved. Search oracle: random histories with every operation kind (by-value / by-reference adds, updates, removes, PSK, group-context-extension, custom proposals, identity changes, path / no-path commits, external-commit joins and resyncs, growth and shrink with interior blanks), members on different crypto providers in one group, cipher suites 1-3, every commit option, shuffled delivery: after every commit all members are compared pairwise on context, tree, roster, transcript hash, authenticator and an exported secret, epoch +1, all-to-all decryption at the end.",
+   design_ref="DESIGN.md section 6 C01",
+   note=COMMON_NOTE + "Hand-modelled: Model/KemSecrets.v; restates theorems of C10 / C11. The equality of the members' states is established on the implementation by exhaustive pairwise comparison over generated histories, not by an end-to-end theorem.",
+   technique="Coq proof (path-secret chain agreement, proposal agreement, epoch step) + mixed-provider random-history differential"),
 }
 NOT_YET = {}
 props = [json.loads(l) for l in open(os.path.join(V, "properties.jsonl"))]
